@@ -527,8 +527,7 @@ def verifyBlob {C : Crypto} (trust : C.Pub → Bool) (nowSec : Int) (blob : Blob
         | some _ =>
           if dg != p.digest || consumed != p.size || (stated != "" && stated != p.mediaType) then none
           else if !kvSubset want p.annotations then none
-          else if c07VerifyBlobReturns == "payload.TargetArtifact" then some p
-          else some zeroDesc
+          else some p   -- notation.VerifyBlob returns payload.TargetArtifact (tied: Tie.source_VerifyBlob_refines_model)
 
 /-- VerificationOutcome.UserMetadata() -/
 def userMetadataOf (p : DescObs) : List KV :=
